@@ -5,7 +5,7 @@
    control characters) hold of the file that Model/Loader.v `load` returns - the file that is executed. *)
 From TSG Require Import Model.AstDisplay.
 From TSG Require Import Model.Checker Spec.Rules Proofs.BaseFacts Proofs.Checker.
-From TSG Require Model.Parser Model.Loader Proofs.Loader Proofs.ParseLocStmt Proofs.ParseClean.
+From TSG Require Model.Parser Model.Loader Proofs.Loader Proofs.ParseLocStmt Proofs.ParseClean Proofs.ParseNodeText.
 
 Lemma flat_map_map_same {A B} (g : A -> A) (f : A -> list B) l :
   Forall (fun x => f (g x) = f x) l -> flat_map f (map g l) = flat_map f l.
@@ -88,6 +88,38 @@ Proof. intros H. apply erased_same_locs. exact (proj1 (check_resolves_lemma _ _ 
 Lemma checked_same_names q f f' : check_file q f = CkOk f' -> map stmt_names (file_stmts f') = map stmt_names (file_stmts f).
 Proof. intros H. apply erased_same_names. exact (proj1 (check_resolves_lemma _ _ _ _ H)). Qed.
 
+(* the Display text of a variable does not read the capture resolutions, so the check `text of a node statement = Display
+   text of its variable` (Proofs/ParseNodeText.v node_textb) survives the checker *)
+Lemma erase_expr_display E e : display_expr E (erase_expr e) = display_expr E e.
+Proof.
+  induction e using expr_ind'; cbn [erase_expr display_expr]; try reflexivity.
+  - rewrite map_map. rewrite (map_ext_in _ (display_expr E)); [reflexivity|].
+    intros a Ha. rewrite Forall_forall in H. exact (H a Ha).
+  - rewrite map_map. rewrite (map_ext_in _ (display_expr E)); [reflexivity|].
+    intros a Ha. rewrite Forall_forall in H. exact (H a Ha).
+  - rewrite IHe1, IHe2. reflexivity.
+  - rewrite IHe1, IHe2. reflexivity.
+  - rewrite IHe. reflexivity.
+  - do 2 f_equal. f_equal. apply flat_map_map_same. induction H as [|a args Ha Hargs IH]; constructor; [|exact IH].
+    rewrite Ha. reflexivity.
+Qed.
+Lemma erase_variable_display E v : display_variable E (erase_variable v) = display_variable E v.
+Proof. destruct v; cbn [erase_variable display_variable]; [reflexivity|]. rewrite erase_expr_display. reflexivity. Qed.
+Lemma erase_stmt_node_textb E s : ParseNodeText.node_textb E (erase_stmt s) = ParseNodeText.node_textb E s.
+Proof. destruct s; cbn [erase_stmt ParseNodeText.node_textb]; try reflexivity. rewrite erase_variable_display. reflexivity. Qed.
+Lemma erased_same_node_textb E f f' : erase_resolution f' = erase_resolution f ->
+  map (ParseNodeText.node_textb E) (file_stmts f') = map (ParseNodeText.node_textb E) (file_stmts f).
+Proof.
+  intros H. assert (Hm : forall g, map (ParseNodeText.node_textb E) (file_stmts (erase_resolution g)) = map (ParseNodeText.node_textb E) (file_stmts g)).
+  { intros g. rewrite erase_file_stmts, map_map. apply map_ext. apply erase_stmt_node_textb. }
+  rewrite <- (Hm f'), <- (Hm f), H. reflexivity.
+Qed.
+Lemma checked_same_node_textb E q f f' : check_file q f = CkOk f' ->
+  map (ParseNodeText.node_textb E) (file_stmts f') = map (ParseNodeText.node_textb E) (file_stmts f).
+Proof. intros H. apply erased_same_node_textb. exact (proj1 (check_resolves_lemma _ _ _ _ H)). Qed.
+Lemma forallb_map_id {A} (f : A -> bool) L : forallb f L = forallb (fun b => b) (map f L).
+Proof. induction L as [|x L IH]; cbn [map forallb]; [reflexivity|]. rewrite IH. reflexivity. Qed.
+
 Lemma names_cleanb_map L : forallb stmt_names_cleanb L = forallb (forallb clean_strb) (map stmt_names L).
 Proof. induction L as [|s L IH]; cbn [map forallb]; [reflexivity|]. rewrite IH. reflexivity. Qed.
 
@@ -122,4 +154,16 @@ Proof.
   intros H. destruct (load_ok_inv _ _ _ _ _ _ H) as (f0 & Hp & Hc).
   rewrite names_cleanb_map, (checked_same_names _ _ _ Hc), <- names_cleanb_map.
   exact (ParseClean.parsed_names_clean_lemma _ _ _ _ _ Hp).
+Qed.
+
+(* every `node` statement of the loaded file, at any depth, carries the Display text of its variable (the text the
+   interpreters write into the debug attribute), for the <str as Debug> table the loader was given *)
+Lemma loaded_node_text_lemma X q fuel text fl pats :
+  Loader.load X q fuel text = Loader.LdOk fl pats ->
+  forall v t l, In (SNode v t l) (file_stmts fl) -> t = display_variable (dpenv_of (Parser.x_print X)) v.
+Proof.
+  intros H v t l Hin. destruct (load_ok_inv _ _ _ _ _ _ H) as (f0 & Hp & Hc).
+  pose proof (ParseNodeText.parsed_node_text_lemma _ _ _ _ _ Hp) as Hall.
+  rewrite forallb_map_id, <- (checked_same_node_textb _ _ _ _ Hc), <- forallb_map_id in Hall.
+  rewrite forallb_forall in Hall. apply (ParseNodeText.node_textb_spec _ v t l). exact (Hall _ Hin).
 Qed.
